@@ -26,6 +26,19 @@ mod verif_kani {
         }
     }
 
+    /// Kani function contract on the real increment_seq (spliced `kani::ensures`, see tools/kani_run.py KANI_CONTRACTS),
+    /// proved here for all inputs; the state-machine harnesses below then use the CONTRACT instead of the body
+    /// (`stub_verified`): a caller is checked against the callee's contract, not its body
+    #[kani::proof_for_contract(increment_seq)]
+    #[kani::stub(zeroize::optimization_barrier, noop_barrier)]
+    fn increment_seq_contract() {
+        let s = Seq(kani::any());
+        let _ = increment_seq(&s);
+    }
+    impl kani::Arbitrary for Seq {
+        fn any() -> Self { Seq(kani::any()) }
+    }
+
     /// discharges the assumed value of the derived Default for the sequence counter
     #[kani::proof]
     #[kani::stub(zeroize::optimization_barrier, noop_barrier)]
@@ -149,6 +162,7 @@ mod verif_kani {
     #[kani::proof]
     #[kani::stub(zeroize::optimization_barrier, noop_barrier)]
     #[kani::unwind(34)]
+    #[kani::stub_verified(increment_seq)]
     fn seal_state_machine_model() {
         let mut ctx: AeadCtxS<ModelAead, HkdfSha256, K> = any_ctx::<ModelAead>(ModelImpl).into();
         let seq0 = ctx.0.seq.0;
@@ -193,6 +207,7 @@ mod verif_kani {
     #[kani::proof]
     #[kani::stub(zeroize::optimization_barrier, noop_barrier)]
     #[kani::unwind(34)]
+    #[kani::stub_verified(increment_seq)]
     fn open_state_machine_model() {
         let mut ctx: AeadCtxR<ModelAead, HkdfSha256, K> = any_ctx::<ModelAead>(ModelImpl).into();
         let seq0 = ctx.0.seq.0;
